@@ -165,6 +165,7 @@ func (st *State) assume(t Term) {
 // ------------------------------------------------------------------------------------------------
 
 type Exec struct {
+	spawning bool  // applying the contract of a function started with `go`
 	hookRecv Value // receiver of the interface call whose `at` hooks are being evaluated
 	prog     *Program
 	fresh    int
